@@ -22,7 +22,8 @@ Definition c09_mk_form (dq ml auto ah ascii graphic : bool) (indent : nat) : for
   mkForm 0 (if dq then ch_dq else ch_sq) ml auto ah (negb dq) ascii graphic indent.
 
 Definition c09_unquote_impl (s : str) : outcome str := unquote_impl s.
-Definition c09_unquote_spec (s : str) : outcome str := unquote_spec s.
+(* regression layer: the int32 accumulator of the code before fix unquote-U *)
+Definition c09_unquote_int32 (s : str) : outcome str := unquote_int32 s.
 Definition c09_sanitize (s : str) : str := sanitize s.
 Definition c09_decode (s : str) : N * nat := utf8_decode s.
 Definition c09_decode_last (s : str) : N * nat := utf8_decode_last_rev (rev s).
